@@ -89,6 +89,7 @@ structure UpInv (C0 : List ChunkDoc) (F0 : List FileDoc) (Mb : List Marker) (id 
          (tracked = true ∧ ∃ mid, s.marker = some mid ∧ st.markers = Mb ++ [⟨mid, id, .uploading, 0, c⟩] ∧
             ∀ m ∈ Mb, m.id ≠ mid)
   fresh : ∀ m ∈ st.markers, m.id < st.nextId
+  trk : tracked = true → s.marker = none → D = []
 
 /-- side conditions on the rest of the store -/
 structure Env (C0 : List ChunkDoc) (Mb : List Marker) (id c B : Nat) : Prop where
@@ -138,7 +139,8 @@ theorem ensureMarker_ok (env : Env C0 Mb id c B) {st : Store} {s : UploadStream}
         simp only [List.mem_append, List.mem_singleton] at hm
         rcases hm with hm | hm
         · have := inv.fresh m hm; simp; omega
-        · subst hm; simp }
+        · subst hm; simp
+      trk := by intro _ h; simp at h }
   · rw [if_neg hm]
     refine ⟨rfl, inv, ?_, rfl⟩
     intro htr
@@ -180,7 +182,11 @@ theorem upload_ok (env : Env C0 Mb id c B) {st : Store} {s : UploadStream} {P : 
     cnt := by simp
     len := by simp [inv.len]
     mark := inv1.mark
-    fresh := inv1.fresh }
+    fresh := inv1.fresh
+    trk := by
+      intro htr hnone
+      have := h3 htr
+      rw [hnone] at this; simp at this }
 
 def AllFull (c : Nat) (D : List Bytes) : Prop := ∀ d ∈ D, d.length = c
 
@@ -191,7 +197,7 @@ theorem UpInv.push {st : Store} {s : UploadStream} {P : Bytes} {D : List Bytes}
   { closed := inv.closed, sid := inv.sid, sc := inv.sc, sB := inv.sB, str := inv.str
     chunks := inv.chunks, files := inv.files
     flat := by simp only [← List.append_assoc]; rw [inv.flat]
-    cnt := inv.cnt, len := inv.len, mark := inv.mark, fresh := inv.fresh }
+    cnt := inv.cnt, len := inv.len, mark := inv.mark, fresh := inv.fresh, trk := inv.trk }
 
 /-- upload(false) on a consistent stream -/
 theorem upload_false_ok (env : Env C0 Mb id c B) {st : Store} {s : UploadStream} {P : Bytes} {D : List Bytes}
@@ -304,7 +310,7 @@ theorem UpInv.init (st : Store) (hC : st.chunks = C0) (hF : st.files = F0) (hM :
     UpInv C0 F0 Mb id c B tracked st (UploadStream.new tracked id c B) [] [] :=
   { closed := rfl, sid := rfl, sc := rfl, sB := rfl, str := rfl
     chunks := by simp [mkDocs, hC], files := hF, flat := rfl, cnt := rfl, len := rfl
-    mark := Or.inl ⟨rfl, hM⟩, fresh := hfresh }
+    mark := Or.inl ⟨rfl, hM⟩, fresh := hfresh, trk := fun _ _ => rfl }
 
 /-- the flush at the beginning of Close -/
 theorem close_flush (env : Env C0 Mb id c B) {st : Store} {s : UploadStream} {P : Bytes} {D : List Bytes}
